@@ -7,7 +7,7 @@ from vlib import fmt_list
 PID = 'C09'
 RULE = ('decode_error on words at every distance 0..k+1 from a codeword (errors spread over the blocks or concentrated in one), uniformly '
         'random words, for all 48 sizes with the seven odd-k sizes over-sampled; whenever the answer is Ok the returned word is '
-        're-checked with independent syndromes and by re-encoding; non-trivial = word outside the code')
+        're-checked with independent syndromes and by re-encoding; non-trivial = word outside the code; the regression corpus of former witnesses')
 THEOREMS = 'C09_full, C09_roots, C09_syndromes'
 ASSUMPTIONS = ['Spec/GF256.v, Spec/RSCode.v transcribe the code of ISO/IEC 16022']
 ODD = None
